@@ -694,7 +694,9 @@ impl<'g, 'r> ProgGen<'g, 'r> {
                 let op = if self.g.chance(1, 2) { UnOp::Neg } else { UnOp::BNot };
                 Expr::Un(op, Box::new(self.leaf_w(fc, want)))
             }
-            4 => match self.g.below(4) {
+            4 => match self.g.below(6) {
+                // an 8-bit value shifted right, widened by the 16-bit destination: the high byte is the sign
+                4 | 5 => Expr::bin(BinOp::Shr, self.leaf_w(fc, t8), Expr::lit(self.g.below(8) as i32)),
                 0 => Expr::bin(BinOp::Shl, self.leaf_w(fc, Ty::U8), Expr::lit(8)),
                 1 => Expr::bin(
                     BinOp::Or,
@@ -821,6 +823,19 @@ impl<'g, 'r> ProgGen<'g, 'r> {
             0 | 1 => Expr::IncDec(self.g.chance(1, 2), self.g.chance(1, 2) || force_prefix, lv),
             2 | 3 => Expr::IncDec(self.g.chance(1, 2), !self.g.chance(2, 3) || force_prefix, lv),
             _ => {
+                // a nested assignment to an array element (constant, register or variable index): the
+                // enclosing expression uses the value of the assignment
+                if self.cfg.arrays && is8(want) && self.g.chance(1, 3) {
+                    let c: Vec<(String, Ty, usize)> =
+                        self.arrays(fc, Some(true), true).into_iter().filter(|(n, _, _)| !fc.touched.contains(n)).collect();
+                    if !c.is_empty() {
+                        let (an, aty, n) = self.g.pick(&c).clone();
+                        let idx = self.index_expr(fc, n);
+                        fc.touched.insert(an.clone());
+                        let e = self.leaf_w(fc, aty);
+                        return Expr::Assign(None, LValue::Index(an, Box::new(idx)), Box::new(e));
+                    }
+                }
                 let e = self.leaf_w(fc, ty);
                 Expr::Assign(None, lv, Box::new(e))
             }
@@ -1766,7 +1781,45 @@ impl<'g, 'r> ProgGen<'g, 'r> {
         let arrs = self.arrays(fc, Some(true), true);
         let px = fc.protected.contains("X");
         let py = fc.protected.contains("Y");
-        match self.g.below(23) {
+        match self.g.below(26) {
+            23 | 24 | 25 => {
+                // a register is set, a variable is stored, and the variable is then tested by a condition
+                // that has something to settle before its branch (a post-increment, a borrowed index
+                // register): the flags must still be those of the tested value
+                let wide: Vec<(String, Ty)> = self.visible_scalars(fc, Some(false), true).into_iter().filter(|(n, _)| !fc.protected.contains(n)).collect();
+                let (tv, is_wide) = if !wide.is_empty() && self.g.chance(1, 2) { (self.g.pick(&wide).0.clone(), true) } else { (a.clone(), false) };
+                let kk = *self.g.pick(&[0, 0, 1, 128, 255]);
+                let mut out = vec![];
+                // the value is first loaded for another variable, so that the accumulator already holds it
+                // when the tested variable is stored, with the flags describing the register set in between
+                let src = if self.g.chance(2, 3) { Expr::lit(kk) } else { Expr::var(&b) };
+                if self.g.chance(3, 4) {
+                    let others: Vec<String> = v8.iter().map(|x| x.0.clone()).filter(|n| *n != a && *n != b && *n != tv).collect();
+                    if !others.is_empty() {
+                        let first = self.g.pick(&others).clone();
+                        out.push(Stmt::Expr(Expr::assign(LValue::Var(first), src.clone())));
+                    }
+                }
+                if !py && self.g.chance(1, 2) {
+                    out.push(Stmt::Expr(Expr::assign(LValue::Var("Y".into()), Expr::lit(*self.g.pick(&[0, 1, 128])))));
+                } else if !px {
+                    out.push(Stmt::Expr(Expr::assign(LValue::Var("X".into()), Expr::lit(*self.g.pick(&[0, 1, 128])))));
+                }
+                out.push(Stmt::Expr(Expr::assign(LValue::Var(tv.clone()), src)));
+                let tested = Expr::IncDec(self.g.chance(1, 2), false, LValue::Var(tv.clone()));
+                let cond = match self.g.below(6) {
+                    0 => tested,
+                    1 if !is_wide => Expr::bin(BinOp::Ne, tested, Expr::lit(kk)),
+                    2 => Expr::bin(BinOp::Eq, tested, Expr::lit(0)),
+                    // the sign test of a 16 bits value only looks at the high byte, the last one stored
+                    3 | 4 if is_wide => Expr::bin(if self.g.chance(1, 2) { BinOp::Lt } else { BinOp::Ge }, tested, Expr::lit(0)),
+                    _ => Expr::bin(BinOp::Ne, tested, Expr::lit(0)),
+                };
+                let others: Vec<String> = v8.iter().map(|x| x.0.clone()).filter(|n| *n != a && *n != b && *n != tv).collect();
+                let c = if others.is_empty() { b.clone() } else { self.g.pick(&others).clone() };
+                out.push(Stmt::If(cond, Box::new(Stmt::Expr(Expr::assign(LValue::Var(c), Expr::lit(k + 1)))), None));
+                out
+            }
             20 | 21 | 22 => {
                 // a switch whose last case ends in `break` (a jump to the label that follows it),
                 // then the constant of that case is needed again: what one path left in a register
